@@ -214,6 +214,20 @@ def _base_skeletons():
     )
     out.append(
         Skel(
+            # two unrestricted discrete choices (different sizes) and a continuous choice
+            "two-dense-discrete-choices",
+            2,
+            [("wealth", "lin")],
+            [("retire", D2), ("effort", D3), ("consumption", "lin")],
+            [
+                ("utility", ["consumption", "retire", "effort", "wealth", "chi"], "utility"),
+                ("next_wealth", ["wealth", "consumption", "effort", "chi"], "next"),
+                ("consumption_constraint", ["consumption", "wealth"], "constraint"),
+            ],
+        )
+    )
+    out.append(
+        Skel(
             "discrete-choices-only",
             2,
             [("stock", "lin")],
@@ -308,13 +322,35 @@ def transition_only_state_skeleton():
     )
 
 
+def unequal_stochastic_skeleton():
+    """two stochastic states with different numbers of labels, laws of motion listed in the opposite
+    order of the states (C12: an accepted specification must solve whatever the order of the functions)"""
+    D2, D3 = ("disc", 2), ("disc", 3)
+    return Skel(
+        "stochastic-unequal-labels-functions-reversed",
+        2,
+        [("health", D2), ("skill", D3), ("wealth", "lin")],
+        [("consumption", "lin")],
+        [
+            ("next_wealth", ["wealth", "consumption", "skill"], "next"),
+            ("next_skill", ["skill", "_period"], "stoch"),
+            ("next_health", ["health"], "stoch"),
+            ("utility", ["consumption", "health", "skill", "wealth"], "utility"),
+        ],
+    )
+
+
 def skeletons(tier):
     base = _base_skeletons()
     if tier == "quick":
         # one permuted declaration order already in the quick tier (two stochastic states whose laws of
         # motion are listed in the opposite order of the states)
         sh = [x for x in base if x.label == "stochastic-health"][0]
-        return base + [sh.permuted("functions-reversed", functions=list(reversed(range(len(sh.functions)))))]
+        return base + [
+            sh.permuted("functions-reversed", functions=list(reversed(range(len(sh.functions))))),
+            # stochastic states declared in non-alphabetical order (partner, health)
+            sh.permuted("states-reversed", states=list(reversed(range(len(sh.states))))),
+        ]
     out = list(base)
     for s in base:
         ns, nc, nf = len(s.states), len(s.choices), len(s.functions)
